@@ -67,6 +67,34 @@ fn bytes_of(p: &mut Prng) -> Vec<u8> {
     (0..n).map(|_| if p.chance(1, 4) { *p.pick(&[0u8, 255, b'{', b'}', b'"', b'\n']) } else { (p.next() % 256) as u8 }).collect()
 }
 
+pub const CHUNK: usize = 4096;
+/// Large incompressible values are sequences of 4 KiB chunks; chunk `id` holds pseudo-random bytes
+/// seeded by the id.  In the trace a chunked value is the sequence of 1000+id (bytes are < 256).
+fn chunk_bytes(id: u64) -> Vec<u8> {
+    let mut p = Prng::new(0xC0FFEE ^ id);
+    (0..CHUNK).map(|_| (p.next() % 256) as u8).collect()
+}
+fn expand(ids: &[u64]) -> Vec<u8> {
+    ids.iter().flat_map(|i| chunk_bytes(*i)).collect()
+}
+/// Encodes returned bytes: as chunk ids when they are a whole number of known chunks, else raw.
+fn encode(bytes: &[u8], chunked: bool) -> Vec<u64> {
+    if chunked && !bytes.is_empty() && bytes.len() % CHUNK == 0 {
+        let mut out = vec![];
+        for b in bytes.chunks(CHUNK) {
+            match (0..32u64).find(|i| chunk_bytes(*i) == b) {
+                Some(i) => out.push(1000 + i),
+                None => return vec![999_999, bytes.len() as u64], // not the bytes that were written
+            }
+        }
+        out
+    } else if chunked {
+        vec![999_998, bytes.len() as u64]
+    } else {
+        bytes.iter().map(|b| *b as u64).collect()
+    }
+}
+
 fn outcome<T>(r: std::thread::Result<anyhow::Result<T>>) -> (String, Option<T>) {
     match r {
         Ok(Ok(v)) => ("ok".into(), Some(v)),
@@ -113,42 +141,53 @@ pub fn run_kv(out_dir: &str, tmp_root: &str, seed: u64, nseq: usize, nops: usize
         count += 1;
         // the driver's own first-write-wins shadow, used only to pick in-range slices
         // (out-of-range slices are outside the contract and are not issued)
-        let mut shadow: std::collections::BTreeMap<String, usize> = std::collections::BTreeMap::new();
+        let mut shadow: std::collections::BTreeMap<String, (usize, bool)> = std::collections::BTreeMap::new();
         for _ in 0..nops {
             let mut kind = p.below(100);
             let k = p.pick(&keys).to_string();
-            let data = bytes_of(&mut p);
+            // one write in eight stores a large value of 9..14 chunks (36..56 KiB, incompressible)
+            let big: Option<Vec<u64>> = if p.chance(1, 8) { Some((0..(9 + p.below(6))).map(|_| p.below(32) as u64).collect()) } else { None };
+            let data = match &big { Some(ids) => expand(ids), None => bytes_of(&mut p) };
+            let logged: Vec<u64> = match &big { Some(ids) => ids.iter().map(|i| 1000 + i).collect(), None => data.iter().map(|b| *b as u64).collect() };
             let ext = p.pick(EXTS).to_string();
             let (mut so, mut sl) = (p.below(24), 1 + p.below(24));
+            let mut unit = 1usize;
+            let mut is_chunked = false;
             if (60..=74).contains(&kind) {
                 match shadow.get(&k) {
-                    Some(&len) if len > 0 => {
+                    Some(&(len, ch)) if len > 0 => {
                         so = p.below(len);
                         sl = 1 + p.below(len - so);
+                        if ch {
+                            unit = CHUNK;
+                        }
                     }
                     Some(_) => kind = 40, // empty value: no non-empty slice exists, read it whole instead
                     None => {}
                 }
             }
+            if let Some(&(_, ch)) = shadow.get(&k) {
+                is_chunked = ch;
+            }
             if kind <= 34 {
-                shadow.entry(k.clone()).or_insert(data.len());
+                shadow.entry(k.clone()).or_insert((logged.len(), big.is_some()));
             }
             for (i, s) in STACKS.iter().enumerate() {
                 let ev = match kind {
                     0..=34 => {
                         let a = match &stacks[i] { Some(a) => a, None => continue };
                         let (res, _) = outcome(catch_unwind(AssertUnwindSafe(|| a.write_object(&k, &data))));
-                        json!({"op": "Write", "seq": sq, "be": s, "k": k, "v": data, "res": res})
+                        json!({"op": "Write", "seq": sq, "be": s, "k": k, "v": logged, "res": res})
                     }
                     35..=59 => {
                         let a = match &stacks[i] { Some(a) => a, None => continue };
                         let (res, v) = outcome(catch_unwind(AssertUnwindSafe(|| a.read_object(&k, 0, 0))));
-                        json!({"op": "Read", "seq": sq, "be": s, "k": k, "res": res, "v": v.unwrap_or_default()})
+                        json!({"op": "Read", "seq": sq, "be": s, "k": k, "res": res, "v": encode(&v.unwrap_or_default(), is_chunked)})
                     }
                     60..=74 => {
                         let a = match &stacks[i] { Some(a) => a, None => continue };
-                        let (res, v) = outcome(catch_unwind(AssertUnwindSafe(|| a.read_object(&k, so, sl))));
-                        json!({"op": "Slice", "seq": sq, "be": s, "k": k, "off": so, "len": sl, "res": res, "v": v.unwrap_or_default()})
+                        let (res, v) = outcome(catch_unwind(AssertUnwindSafe(|| a.read_object(&k, so * unit, sl * unit))));
+                        json!({"op": "Slice", "seq": sq, "be": s, "k": k, "off": so, "len": sl, "unit": unit, "res": res, "v": encode(&v.unwrap_or_default(), is_chunked)})
                     }
                     75..=92 => {
                         let a = match &stacks[i] { Some(a) => a, None => continue };
